@@ -690,7 +690,19 @@ func writeRunTrace(buf *bytes.Buffer, caseIdx int, variant string, in []int, ter
 	emit(map[string]interface{}{"e": "reset", "case": caseIdx, "variant": variant, "input": input, "ords": append([]int{}, in...), "first": first})
 	verdict, val, msg := "none", "", ""
 	nfetch := 0
+	nested := false
 	for _, ln := range lines {
+		if ln == "NESTBEGIN" {
+			nested = true
+			continue
+		}
+		if ln == "NESTEND" {
+			nested = false
+			continue
+		}
+		if nested {
+			continue
+		}
 		f := strings.SplitN(ln, " ", 2)
 		switch f[0] {
 		case "T":
